@@ -459,6 +459,10 @@ def step (s : SS) : Op → SS
 theorem C14_on_tree : Facts.sessionShadowPutBeforeDelete = false ∧ Facts.sessionInitializeRearmsAllSessions = true ∧
     Facts.sessionCallbackOnEveryRangeDeletedKey = true ∧ Facts.sessionExpiryRunsCleanup = true := by decide
 
+/-- the shadow key of an ephemeral record is escaped when written and unescaped with the inverse function when the
+    session ends (the model treats the shadow index as a set of record keys) -/
+theorem C14_on_tree_escape : Facts.sessionShadowKeyEscapeRoundTrips = true := by decide
+
 /-- **C14 (f)** the invariant holds in every state reachable by any interleaving of client writes, session
     creation, heartbeats, close, expiry and leader changes (close/expiry with nothing between listing and write) -/
 theorem C14_invariant_reachable (ops : List Op) : Inv (ops.foldl step SS.init) := by
